@@ -95,3 +95,46 @@ pub struct ExRefCell<T: ?Sized>(core::cell::RefCell<T>);
 // (stated only where T's clone is the identity on views: the units use it at T = u8)
 pub assume_specification<T: Clone>[ <[T]>::to_vec ](s: &[T]) -> (r: Vec<T>)
     ensures r@.len() == s@.len(), forall|i: int| 0 <= i < s@.len() ==> cloned::<T>(s@[i], #[trigger] r@[i]);
+
+// ---- header blocks (RFC 7540 section 6.2 HEADERS layout, section 6.10 CONTINUATION)
+//   HEADERS payload = [Pad Length (8) if PADDED 0x8] [E + Stream Dependency (32) + Weight (8) if PRIORITY 0x20]
+//                     Header Block Fragment (*) [Padding (Pad Length octets)]
+pub open spec fn hb_padded(flags: u8) -> bool { flags & 0x8u8 != 0 }
+pub open spec fn hb_priority(flags: u8) -> bool { flags & 0x20u8 != 0 }
+pub open spec fn hb_start(flags: u8) -> int { (if hb_padded(flags) { 1int } else { 0int }) + (if hb_priority(flags) { 5int } else { 0int }) }
+pub open spec fn hb_pad(p: Seq<u8>, flags: u8) -> int { if hb_padded(flags) && p.len() > 0 { p[0] as int } else { 0 } }
+/// the payload is long enough for the fields its flags announce and for its padding
+pub open spec fn hb_fragment_ok(p: Seq<u8>, flags: u8) -> bool { p.len() >= hb_start(flags) && hb_pad(p, flags) <= p.len() - hb_start(flags) }
+pub open spec fn hb_fragment(p: Seq<u8>, flags: u8) -> Seq<u8> { p.subrange(hb_start(flags), p.len() - hb_pad(p, flags)) }
+
+pub open spec fn hb_is_headers(sid: u32, f: Http2Frame) -> bool { f.stream_id == sid && f.frame_type == Http2FrameType::Headers }
+pub open spec fn hb_is_cont(sid: u32, f: Http2Frame) -> bool { f.stream_id == sid && f.frame_type == Http2FrameType::Continuation }
+/// a HEADERS frame of the stream among the first n frames is malformed
+pub open spec fn hb_bad(sid: u32, fs: Seq<Http2Frame>, n: int) -> bool {
+    exists|k: int| 0 <= k < n && hb_is_headers(sid, #[trigger] fs[k]) && !hb_fragment_ok(fs[k].payload@, fs[k].flags)
+}
+/// the header blocks of stream `sid` carried by the first n frames, in wire order:
+/// a HEADERS frame opens a block with its fragment, a CONTINUATION frame extends the latest block
+pub open spec fn hb_blocks(sid: u32, fs: Seq<Http2Frame>, n: int) -> Seq<Seq<u8>>
+    decreases n
+{
+    if n <= 0 { Seq::empty() }
+    else {
+        let prev = hb_blocks(sid, fs, n - 1);
+        let f = fs[n - 1];
+        if hb_is_headers(sid, f) { prev.push(hb_fragment(f.payload@, f.flags)) }
+        else if hb_is_cont(sid, f) {
+            if prev.len() == 0 { seq![f.payload@] } else { prev.update(prev.len() - 1, prev[prev.len() - 1] + f.payload@) }
+        }
+        else { prev }
+    }
+}
+/// exec blocks (completed ones + the one being built) against the spec
+pub open spec fn hb_repr(blocks: Seq<Vec<u8>>, current: Seq<u8>, open: bool, spec_blocks: Seq<Seq<u8>>) -> bool {
+    if open {
+        spec_blocks.len() == blocks.len() + 1 && spec_blocks[blocks.len() as int] =~= current
+        && forall|i: int| 0 <= i < blocks.len() ==> (#[trigger] blocks[i])@ =~= spec_blocks[i]
+    } else {
+        spec_blocks.len() == 0 && blocks.len() == 0 && current.len() == 0
+    }
+}
